@@ -1109,7 +1109,7 @@ class Interp:
 
 
 NOTHANDLED = object()
-SCALAR_BUF_TY = re.compile(r"^(\[u8; [^\]]+\]|u8|u16|u32|u64|u128|usize|i8|i16|i32|i64|i128|isize)$")
+SCALAR_BUF_TY = re.compile(r"^(\[u8; [^\]]+\]|u8|u16|u32|u64|u128|usize|i8|i16|i32|i64|i128|isize|std::vec::Vec<u8>|bytes::BytesMut|bytes::Bytes|std::string::String)$")
 DIVERGE = ("diverge",)
 
 
